@@ -125,8 +125,37 @@ def strip_attrs(data, item, tlog, keep_derive_copy=True):
         collect(v.get("attrs", []))
         for f in v.get("fields", []) or []:
             collect(f.get("attrs", []))
+    # T15: field visibility normalised to `pub` (Verus treats a struct with any non-pub field as opaque in pub specs)
+    nvis = 0
+    if item["kind"] == "struct" and item.get("named"):
+        for f in item.get("fields", []) or []:
+            fs = f["start"] - s
+            # skip the field's own attributes
+            astart = fs
+            for a in f.get("attrs", []):
+                astart = max(astart, a["end"] - s)
+            seg = text[astart:f["end"] - s]
+            m = re.match(rb"^(\s*)(pub\s*\([^)]*\)\s*|pub\s+)?", seg)
+            vis = (m.group(2) or b"").strip()
+            if vis != b"pub":
+                cuts.append((astart + len(m.group(1)), astart + m.end(), b"pub "))
+                nvis += 1
+    if nvis:
+        tlog.append({"t": "T15", "item": item["path"], "note": "%d field visibilities widened to pub" % nvis})
     for (a, b, rep) in sorted(cuts, reverse=True):
         text = text[:a] + rep + text[b:]
+    # T1: a dropped, compiler-generated Clone becomes an axiomatised structural clone
+    dropped_clone = any(t.get("t") == "T1" and t.get("item") == item["path"] and "Clone" in t.get("dropped_derives", []) for t in tlog)
+    if dropped_clone and item["kind"] in ("struct", "enum") and not (item.get("generics") or "").strip():
+        name = item["path"].split("::")[-1]
+        gen = item.get("generics") or ""
+        if gen:
+            params = [g.strip().split(":")[0].strip() for g in gen.strip("<>").split(",") if g.strip()]
+            bounds = ", ".join("%s: Clone" % p_ if not p_.startswith("'") else p_ for p_ in params)
+            hdr = "impl<%s> Clone for %s<%s>" % (bounds, name, ", ".join(params))
+        else:
+            hdr = "impl Clone for %s" % name
+        text += ("\n%s {\n    #[verifier::external_body]\n    fn clone(&self) -> (r: Self)\n        ensures r == *self\n    { unimplemented!() }\n}\n" % hdr).encode()
     return text
 
 
@@ -220,7 +249,9 @@ def emit_fn(data, it, ckey, C, tlog, anchors_used, canary=False):
     # attributes of the fn itself: drop proc-macro attrs, doc comments kept out
     for a in it.get("attrs", []):
         root = a["path"].split("::")[0]
-        if root in DROP_ATTR_PATHS or root in ("cfg",) and False:
+        if a.get("inner"):
+            continue   # inner doc comments inside the body are handled by T12
+        if root in DROP_ATTR_PATHS:
             ed.replace(a["start"], a["end"], b"")
             if root != "doc":
                 tlog.append({"t": "T2", "item": it["path"], "attr": a["text"][:80]})
@@ -273,8 +304,11 @@ def emit_fn(data, it, ckey, C, tlog, anchors_used, canary=False):
                 ed.insert(l["body_open"], "\n" + text, order=0)
             elif parts[2] == "body_entry":
                 ed.insert(l["body_open"] + 1, "\n" + text, order=0)
+            elif parts[2] == "arm_entry":
+                # T10 loops only: inside the `Some(pat) =>` arm, i.e. after the iterator has advanced
+                ed.insert(l["body_open"] + 1, "\n" + text, order=20)
             elif parts[2] == "body_exit":
-                ed.insert(l["body_close"], "\n" + text, order=0)
+                ed.insert(l["body_close"], "\n" + text.rstrip("\n") + "\n    ", order=0)
             else:
                 raise Undecided("bad anchor %s" % key)
         elif parts[0] in ("before_loop", "after_loop"):
@@ -302,9 +336,9 @@ def emit_fn(data, it, ckey, C, tlog, anchors_used, canary=False):
                 raise Undecided("lost anchor: tail expression of %s" % it["path"])
             ed.insert(f["tail"]["start"], text, order=0)
         elif parts[0] == "exit":
-            if f["tail"] is not None:
+            if f["tail"] is not None and f["ret"] is not None:
                 raise Undecided("anchor `exit` on %s, which has a tail expression (use before_tail)" % it["path"])
-            ed.insert(f["body_close"], text, order=0)
+            ed.insert(f["body_close"], text.rstrip("\n") + "\n    ", order=0)
         elif parts[0] == "before_stmt":
             # top-level statement ordinal (1-based) of the fn body
             k = int(parts[1])
@@ -345,7 +379,7 @@ def emit_fn(data, it, ckey, C, tlog, anchors_used, canary=False):
         # header `for PAT in EXPR` -> `let mut it = IntoIterator::into_iter(EXPR); loop`
         ed.replace(l["start"], l["expr"]["end"],
                    "let mut %s = IntoIterator::into_iter(%s);\nloop" % (itn, ex))
-        ed.insert(l["body_open"] + 1, " match %s.next() { None => { break; } Some(%s) => {" % (itn, pat), order=-10)
+        ed.insert(l["body_open"] + 1, " match %s.next() { None => { break; } Some(%s) => {" % (itn, pat), order=10)
         ed.insert(l["body_close"], " } }", order=10)
         tlog.append({"t": "T10", "item": it["path"], "loop": n})
     # T12: inner doc comments in body
@@ -450,7 +484,7 @@ def assemble_unit(unit_dir, repo=None, canary=False):
     if unit.get("features"):
         header.insert(0, "#![feature(%s)]" % ", ".join(unit["features"]))
     pieces.append("\n".join(header) + "\n")
-    pieces.append("use vstd::prelude::*;\n")
+    pieces.append("use vstd::prelude::*;\nuse vstd::std_specs::iter::IteratorSpec;\n")
     for sh in unit.get("shims", []):
         p = os.path.join(VERIF, "shims", sh + ".rs")
         pieces.append("// ---- shim %s ----\n" % sh + open(p).read() + "\n")
@@ -529,7 +563,7 @@ def assemble_unit(unit_dir, repo=None, canary=False):
                     if C.flag(ckey, "rename"):
                         ctxt = re.sub(rb"\bfn\s+" + it["fn"]["name"].encode() + rb"_vxcanary\b", b"fn " + cname.encode() + b"_vxcanary", ctxt, count=1)
                     txt = txt + b"\n" + ctxt
-                    qual = (it["self_ty"] + "::" if it["kind"] == "impl_fn" else "") + cname + "_vxcanary"
+                    qual = (re.sub(r"<.*>$", "", it["self_ty"]) + "::" if it["kind"] == "impl_fn" else "") + cname + "_vxcanary"
                     canary_fns.append(qual)
             elif it["kind"] in ("struct", "enum"):
                 txt = strip_attrs(data, it, tlog)
